@@ -236,7 +236,9 @@ func init() {
 				// the same failing write as the second statement of a session transaction: whatever the transaction
 				// commits must be exactly its first statement (or nothing, if the commit is refused)
 				if _, isBatch := batches[last]; !isBatch && !strings.HasPrefix(obs, "ok") {
-					run := func(withFailing bool) (string, []problem, bool) {
+					// pos: 0 = without the failing statement, 1 = after the insert, 2 = before it (as the first statement)
+					run := func(pos int) (string, []problem, bool) {
+						withFailing := pos > 0
 						wt := world.New()
 						defer wt.Close()
 						for _, ci := range path[:len(path)-1] {
@@ -251,8 +253,11 @@ func init() {
 						_ = lungo.WithSession(wt.Ctx, sess, func(sc lungo.ISessionContext) error {
 							outer := wt.Ctx
 							wt.Ctx = sc
+							if pos == 2 {
+								second = calls[path[len(path)-1]].Do(wt)
+							}
 							first = cInsertOne("d", "c", bD("_id", "txn-first", "u", "txn-first", "s", "txn-first")).Do(wt)
-							if withFailing {
+							if pos == 1 {
 								second = calls[path[len(path)-1]].Do(wt)
 							}
 							wt.Ctx = outer
@@ -276,14 +281,17 @@ func init() {
 						}
 						return wt.KeyWithOplog(), probs, true
 					}
-					got, probs, ok1 := run(true)
-					want, _, ok2 := run(false)
-					if ok1 && ok2 {
+					want, _, ok2 := run(0)
+					for pos := 1; pos <= 2 && ok2; pos++ {
+						got, probs, ok1 := run(pos)
+						if !ok1 {
+							continue
+						}
 						mu.Lock()
 						txnVariants++
 						mu.Unlock()
 						if got != want {
-							r.Violation("failed-statement-in-transaction:"+callKind(last)+":"+obs, fmt.Sprintf("session transaction {insert txn-first; %s (fails)}; commit left\n%s\nbut the transaction without the failing statement leaves\n%s\nhistory: %s", last, got, want, hist), rep)
+							r.Violation("failed-statement-in-transaction:"+callKind(last)+":"+obs, fmt.Sprintf("session transaction {insert txn-first; %s (fails)} (failing statement at position %d of 2); commit left\n%s\nbut the transaction without the failing statement leaves\n%s\nhistory: %s", last, 3-pos, got, want, hist), rep)
 						}
 						for _, pr := range probs {
 							r.Violation("failed-statement-in-transaction:"+pr.class+":"+callKind(last), pr.what+" after a session transaction {insert; "+last+" (fails)}; commit; history: "+hist, rep)
